@@ -52,11 +52,16 @@ func (t *transformer) OnRequest(obj public_types.APIStreamI) (actions.ReqLunarAc
 		return nil, fmt.Errorf("failed to prepare request: %w", err)
 	}
 	obj.SetRequest(transformed)
+	parsedURL := obj.GetRequest().GetParsedURL()
+	if parsedURL == nil {
+		// the URL of the request cannot be parsed (HAProxy forwards such URLs unchanged)
+		return nil, fmt.Errorf("failed to parse the URL of the transformed request")
+	}
 	return &actions.ModifyRequestAction{
 		HeadersToSet: obj.GetHeaders(),
 		Host:         obj.GetRequest().GetHost(),
 		Body:         obj.GetRequest().GetBody(),
-		Path:         obj.GetRequest().GetParsedURL().Path,
+		Path:         parsedURL.Path,
 		QueryParams:  obj.GetRequest().GetQuery(),
 	}, nil
 }
